@@ -553,6 +553,24 @@ def _attr_start(src, toks, item):
     return start
 
 
+def _frag_probe(src, item, d, where):
+    """raise LostAnchor/Unsupported if the fragment anchors do not resolve (used for //@optional)."""
+    if item.body_open is None:
+        raise LostAnchor("%s has no body" % where)
+    body = src[item.body_open:item.body_close + 1]
+    m1 = re.search(d["start"], body, re.M)
+    if not m1:
+        raise LostAnchor("%s: start anchor not found" % where)
+    sf = m1.start()
+    if d.get("start_after"):
+        nl = body.find("\n", m1.end())
+        if nl < 0:
+            raise LostAnchor("nothing after start")
+        sf = nl + 1
+    if not re.compile(d["stop"], re.M).search(body, sf):
+        raise LostAnchor("%s: stop anchor not found" % where)
+
+
 def assemble(template_path, repo):
     """Returns (assembled_text, Extraction)."""
     ex = Extraction()
@@ -657,6 +675,8 @@ def assemble(template_path, repo):
                     d["drop_log"] = True
                 elif key == "novacuity":
                     d["novacuity"] = True
+                elif key == "optional":
+                    d["optional"] = True
                 elif key == "sig":
                     cur = ("sig",)
                 elif key == "loop":
@@ -713,6 +733,12 @@ def assemble(template_path, repo):
                 emit(vacuity_twin(text))
         else:
             # T3 fragment
+            if d.get("optional"):
+                try:
+                    _frag_probe(src, item, d, where)
+                except (LostAnchor, Unsupported) as e:
+                    ex.dropped.append("optional fragment skipped (%s)" % e)
+                    continue
             if item.body_open is None:
                 raise LostAnchor("%s has no body" % where)
             body = src[item.body_open:item.body_close + 1]
